@@ -1318,3 +1318,1117 @@ Proof.
   unfold poll_task. sk. rewrite F, E. unfold poll, ch_poll. unfold cg in CG. sk in CG. sk. rewrite CG. cbn [c_st].
   eexists. sk. rewrite find_put_same. split; reflexivity.
 Qed.
+
+(* ================================================================ C13: no sender stays blocked *)
+(* a channel never re-opens and a completed channel stays completed *)
+Definition cmc (a b : chan) : Prop := (c_st b = COpen -> c_st a = COpen) /\ (c_st a = CFilled -> c_st b = CFilled).
+Lemma cmc_refl a : cmc a a. Proof. split; auto. Qed.
+Lemma cmc_trans a b c : cmc a b -> cmc b c -> cmc a c. Proof. unfold cmc. intuition. Qed.
+Lemma cmc_dtx a : cmc a (dtx a).
+Proof. unfold cmc, dtx. destruct (c_st a) eqn:E; cbn [c_st]; rewrite ?E; split; auto; discriminate. Qed.
+Lemma cmc_drx a : cmc a (drx a). Proof. unfold cmc, drx. cbn [c_st]. auto. Qed.
+Lemma cmc_filled a v : cmc a (mkChan CFilled v true). Proof. unfold cmc. cbn [c_st]. split; [discriminate|auto]. Qed.
+
+Definition cmx (chs chs' : list chan) (c : nat) : Prop := cmc (ch_get chs c) (ch_get chs' c).
+Lemma cmx_refl chs c : cmx chs chs c. Proof. apply cmc_refl. Qed.
+Lemma cmx_trans a b d c : cmx a b c -> cmx b d c -> cmx a d c. Proof. apply cmc_trans. Qed.
+Lemma cmx_eq a b c : ch_get b c = ch_get a c -> cmx a b c. Proof. unfold cmx. intros ->. apply cmc_refl. Qed.
+Lemma cmx_drop_tx chs c0 c : cmx chs (ch_drop_tx chs c0) c.
+Proof. unfold cmx. rewrite ch_drop_tx_get. destruct (Nat.eqb c0 c); [apply cmc_dtx|apply cmc_refl]. Qed.
+Lemma cmx_drop_rx chs c0 c : cmx chs (ch_drop_rx chs c0) c.
+Proof. unfold cmx. rewrite ch_drop_rx_get. destruct (Nat.eqb c0 c); [apply cmc_drx|apply cmc_refl]. Qed.
+Lemma cmx_send chs c0 v c : cmx chs (fst (ch_send chs c0 v)) c.
+Proof. unfold cmx. rewrite ch_send_get. destruct (_ && _); [apply cmc_filled|apply cmc_refl]. Qed.
+Lemma cmx_fold_dtx l : forall chs c, cmx chs (fold_left ch_drop_tx l chs) c.
+Proof. induction l as [|c0 l IH]; intros chs c; cbn [fold_left]; [apply cmx_refl|]. eapply cmx_trans; [apply cmx_drop_tx|apply IH]. Qed.
+Lemma cmx_app chs x c : (c < length chs)%nat -> cmx chs (chs ++ [x]) c.
+Proof. intros L. apply cmx_eq. now apply ch_get_app_old. Qed.
+Lemma cmx_wake ws : forall chs n c, cmx chs (fst (wake_go chs n ws)) c.
+Proof.
+  induction ws as [|c0 r IH]; intros chs n c; cbn [wake_go fst]; [apply cmx_refl|].
+  destruct (n =? 0); [apply cmx_refl|]. destruct (ch_send chs c0 0) as [chs1 ok] eqn:E.
+  assert (C1 : cmx chs chs1 c) by (rewrite <- (f_equal fst E : fst (ch_send chs c0 0) = chs1); apply cmx_send).
+  destruct ok; eapply cmx_trans; eauto.
+Qed.
+Lemma cmx_sig x chs chs' c : sig_only x chs chs' -> sig_of x <> Some c -> cmx chs chs' c.
+Proof. intros [_ G] N. apply cmx_eq. auto. Qed.
+
+Definition cm (s s' : sink) (c : nat) : Prop := cmx (chans s) (chans s') c.
+Lemma cm_refl s c : cm s s c. Proof. apply cmx_refl. Qed.
+Lemma cm_trans a b d c : cm a b c -> cm b d c -> cm a d c. Proof. apply cmx_trans. Qed.
+Lemma cm_eq s s' c : chans s' = chans s -> cm s s' c. Proof. unfold cm. intros ->. apply cmx_refl. Qed.
+Ltac cme := first [apply cm_refl | apply cm_eq; reflexivity].
+
+Lemma cm_send_res ks s x s1 st c :
+  send_res s x s1 st -> sm_ok ks s x -> (c < length (chans s))%nat -> kof ks c <> Some KS -> cm s s1 c.
+Proof.
+  intros R M L K. assert (NS : sig_of x <> Some c).
+  { unfold sig_of, sm_ok in *. destruct (tstream x) as [sm|]; [|discriminate]. destruct M as [M _].
+    intros E. injection E as E. subst c. contradiction. }
+  unfold cm. destruct R as [s1 e N | s1 Hio CW P | s1 id Hio L' W P].
+  - destruct N as (_&_&_&_&_&_&_&_&_&_&_&_&_&_&_&N). eapply cmx_sig; eauto.
+  - unfold parked in P. subst. sk. now apply cmx_app.
+  - destruct P as (_&_&_&_&_&_&_&_&_&_&_&_&_&P&_). eapply cmx_trans; [apply cmx_app; eauto|eapply cmx_sig; eauto].
+Qed.
+
+Lemma cm_clear s c : cm s (clear_queues s) c.
+Proof. rewrite clear_queues_eq. unfold cm. sk. unfold cleared. apply cmx_fold_dtx. Qed.
+Lemma cm_close s c : cm s (do_close s) c.
+Proof. destruct (do_close_spec s) as (s2 & -> & C). eapply cm_trans; [|apply cm_clear]. apply cm_eq. apply C. Qed.
+Lemma cm_force_close s c : cm s (do_force_close s) c.
+Proof. unfold do_force_close. eapply cm_trans; [|apply cm_clear]. now apply cm_eq. Qed.
+Lemma cm_drop_rx s c0 c : cm s (drop_rx s c0) c. Proof. unfold cm, drop_rx. sk. apply cmx_drop_rx. Qed.
+Lemma cm_wake s n c : cm s (wake s n) c. Proof. rewrite wake_eq. unfold cm. sk. apply cmx_wake. Qed.
+Lemma cm_drop_sig ks s s0 x c k : sm_ok ks s0 x -> kof ks c = Some k -> k <> KS -> cm s (drop_sig s x) c.
+Proof.
+  intros M K N. unfold cm. eapply cmx_sig; [apply drop_sig_chans|].
+  unfold sig_of, sm_ok in *. destruct (tstream x) as [sm|]; [|discriminate]. destruct M as [M _].
+  intros E. injection E as E. subst c. congruence.
+Qed.
+
+Lemma cm_start0 ks s k idq size s1 st c :
+  inv ks s -> (c < length (chans s))%nat -> kof ks c = Some KW ->
+  send_res (if k =? 7 then set_chans s (chans s ++ [open_ch]) else s) (new_task k idq size (length (chans s))) s1 st ->
+  cm s s1 c.
+Proof.
+  intros I L A R. pose proof (i_len _ _ I) as LK.
+  assert (L0 : (c < length (chans (if (k =? 7)%N then set_chans s (chans s ++ [open_ch]) else s)))%nat).
+  { destruct (k =? 7); sk; auto. rewrite app_length. lia. }
+  assert (K0 : kof (if k =? 7 then ks ++ [KS] else ks) c <> Some KS).
+  { destruct (k =? 7); [|congruence]. unfold kof in *. rewrite nth_error_app1 by lia. congruence. }
+  pose proof (cm_send_res _ _ _ _ _ c R (new_task_sm ks s k idq size LK) L0 K0) as N.
+  eapply cm_trans; [|exact N].
+  destruct (k =? 7); [|apply cm_refl]. unfold cm. sk. now apply cmx_app.
+Qed.
+
+Lemma cm_start ks s t k idq size c :
+  inv ks s -> (c < length (chans s))%nat -> kof ks c = Some KW -> cm s (start_task s t k idq size) c.
+Proof.
+  intros I L A. destruct (find_task t (tasks s)) eqn:F; [unfold start_task; rewrite F; apply cm_refl|].
+  destruct (start_task_spec s t k idq size F) as [ | s1 e K P | e K | s1 K Hio CW P | s0 x s1 st K E0 EX R].
+  - apply cm_refl.
+  - apply cm_eq. sk. apply P.
+  - now apply cm_eq.
+  - unfold parked in P. subst. unfold cm. sk. now apply cmx_app.
+  - subst. change (cm s s1 c). eapply cm_start0; eauto.
+Qed.
+
+Lemma cm_create ks s t k idq size c :
+  inv ks s -> (c < length (chans s))%nat -> kof ks c = Some KW -> cm s (create_task s t k idq size) c.
+Proof.
+  intros I L A. destruct (find_task t (tasks s)) eqn:F; [unfold create_task; rewrite F; apply cm_refl|].
+  destruct (create_task_spec s t k idq size F) as [ | K | e K | s1 K Hio CW P | K | s0 x s1 st K E0 EX R].
+  - apply cm_refl.
+  - now apply cm_start with ks.
+  - now apply cm_eq.
+  - unfold parked in P. subst. unfold cm. sk. now apply cmx_app.
+  - now apply cm_eq.
+  - subst. change (cm s s1 c). eapply cm_start0; eauto.
+Qed.
+
+Lemma cm_poll ks s t c :
+  inv ks s -> (c < length (chans s))%nat -> kof ks c = Some KW -> cm s (poll_task s t) c.
+Proof.
+  intros I L A. destruct (find_task t (tasks s)) as [x|] eqn:F; [|unfold poll_task; rewrite F; apply cm_refl].
+  assert (H : In (t, x) (tasks s)) by (apply find_task_In; auto; apply I).
+  destruct (i_task _ _ I t x H) as [SO MO].
+  destruct (poll_task_spec s t x F) as (s1 & st & R & ->). change (cm s s1 c).
+  assert (NK : kof ks c <> Some KS) by congruence.
+  assert (SR : forall s2 st2, send_res s x s2 st2 -> cm s s2 c) by (intros s2 st2 R2; exact (cm_send_res ks s x s2 st2 c R2 MO L NK)).
+  destruct R; try apply cm_refl; try (eapply SR; eassumption); apply (SR s1 (TDone 0)); now apply SE_fail.
+Qed.
+
+Lemma cm_drop ks s t c : inv ks s -> kof ks c = Some KW -> cm s (drop_task s t) c.
+Proof.
+  intros I A. unfold drop_task. destruct (find_task t (tasks s)) as [x|] eqn:F; [|apply cm_refl].
+  assert (H : In (t, x) (tasks s)) by (apply find_task_In; auto; apply I).
+  destruct (i_task _ _ I t x H) as [SO MO].
+  destruct (tst x) as [c0|c0 id|id|c0|c0|e| | |e]; try apply cm_refl; cbv zeta;
+    try (change (cm s (drop_rx s c0) c); apply cm_drop_rx); try (apply cm_eq; reflexivity).
+  change (cm s (drop_sig (drop_rx s c0) x) c). eapply cm_trans; [apply cm_drop_rx|].
+  eapply cm_drop_sig; eauto; discriminate.
+Qed.
+
+Lemma cm_release s t c : cm s (release_task s t) c.
+Proof.
+  unfold release_task. destruct (find_task t (tasks s)) as [x|]; [|cme].
+  destruct (tst x); try cme. unfold release_publish. destruct (rxm_find _ _) as [c0|]; [|cme].
+  destruct (enc_packet _ _ _) as [s2 ok] eqn:E. destruct (enc_packet_core _ _ _ _ _ E) as (_&_&_&_&_&_&E7&_).
+  destruct ok; [destruct (poll s2 c0)|]; try (apply cm_eq; exact E7).
+  change (cm s (drop_rx s2 c0) c). eapply cm_trans; [apply cm_eq; exact E7|apply cm_drop_rx].
+Qed.
+
+Lemma cm_drop_receipt s t c : cm s (drop_receipt s t) c.
+Proof.
+  unfold drop_receipt. destruct (find_task t (tasks s)) as [x|]; [|cme].
+  destruct (tst x); try cme. unfold release_publish. destruct (rxm_find _ _) as [c0|]; [|cme].
+  destruct (enc_packet _ _ _) as [s2 ok] eqn:E. destruct (enc_packet_core _ _ _ _ _ E) as (_&_&_&_&_&_&E7&_).
+  change (cm s (drop_rx s2 c0) c). eapply cm_trans; [apply cm_eq; exact E7|apply cm_drop_rx].
+Qed.
+
+Lemma cm_wrb s on c : cm s (do_wrb s on) c.
+Proof.
+  unfold do_wrb. destruct on; [cme|].
+  set (s1 := set_wrb s false).
+  set (s2 := match swait s1 with Some c0 => set_swait (fst (send s1 c0 0)) None | None => s1 end).
+  assert (N2 : cm s s2 c).
+  { unfold s2. destruct (swait s1) as [c0|] eqn:E; [|cme]. rewrite send_eq. unfold cm. sk. apply cmx_send. }
+  destruct (_ <? _); auto. eapply cm_trans; [exact N2|apply cm_wake].
+Qed.
+
+Lemma cm_epp s n c : cm s (fst (fst (encode_publish_payload s n))) c.
+Proof. destruct (epp_cases s n) as [-> | C]; [apply cm_force_close|apply cm_eq; apply C]. Qed.
+Lemma cm_chunk_payload s sm srx n c : cm s (fst (chunk_payload s sm srx n)) c.
+Proof. unfold chunk_payload. pose proof (cm_epp s n c) as E. destruct (encode_publish_payload s n) as [[s1 st] more]. exact E. Qed.
+Lemma cm_chunk_inprocess s sm srx inp n c : (c < length (chans s))%nat -> cm s (fst (chunk_inprocess s sm srx inp n)) c.
+Proof.
+  intros L. unfold chunk_inprocess. destruct inp; [|cme]. destruct (is_closed s); [cme|].
+  destruct (wrb s); [|apply cm_chunk_payload]. unfold new_chan. sk. cbn [fst]. rewrite drop_tx_opt_eq. unfold cm. sk.
+  eapply cmx_trans; [apply cmx_app; eauto|]. destruct (swait s); [apply cmx_drop_tx|apply cmx_refl].
+Qed.
+Lemma cm_chunk_signal s sm n c : (c < length (chans s))%nat -> cm s (fst (chunk_signal s sm n)) c.
+Proof. intros L. unfold chunk_signal. destruct (poll _ _); try cme. now apply cm_chunk_inprocess. Qed.
+Lemma cm_chunk s t n c : (c < length (chans s))%nat -> cm s (chunk_task s t n) c.
+Proof.
+  intros L. unfold chunk_task. destruct (find_task t (tasks s)) as [x|]; [|cme].
+  destruct (tstream x) as [sm|]; [|cme]. destruct (negb _); [cme|].
+  assert (G : forall r : sink * stream, cm s (fst r) c -> cm s (let '(s1, sm1) := r in set_tasks s1 (put_task t (with_stream x sm1) (tasks s1))) c).
+  { intros [s1 sm1] H. exact H. }
+  apply G. destruct (pend sm) as [|m|c0 m].
+  - destruct (s_rx sm); [now apply cm_chunk_signal|now apply cm_chunk_inprocess].
+  - now apply cm_chunk_signal.
+  - destruct (poll s c0); try cme. apply cm_chunk_payload.
+Qed.
+Lemma cm_drop_pending s sm c : cm s (fst (drop_pending s sm)) c.
+Proof. unfold drop_pending. destruct (pend sm); cbn [fst]; try cme; apply cm_drop_rx. Qed.
+Lemma cm_drop_chunk s t c : cm s (drop_chunk s t) c.
+Proof.
+  unfold drop_chunk. destruct (find_task t (tasks s)) as [x|]; [|cme].
+  destruct (tstream x) as [sm|]; [|cme]. destruct (negb _); [cme|].
+  pose proof (cm_drop_pending s sm c) as E. destruct (pend sm); [cme| |]; destruct (drop_pending s sm); exact E.
+Qed.
+Lemma cm_drop_stream s t c : cm s (drop_stream s t) c.
+Proof.
+  unfold drop_stream. destruct (find_task t (tasks s)) as [x|]; [|cme].
+  destruct (tstream x) as [sm|]; [|cme]. destruct (negb _); [cme|].
+  pose proof (cm_drop_pending s sm c) as E. destruct (drop_pending s sm) as [s1 sm1]. cbn [fst] in E.
+  set (s2 := if s_rx sm1 then drop_rx s1 (sg sm1) else s1).
+  assert (E2 : cm s s2 c) by (unfold s2; destruct (s_rx sm1); [eapply cm_trans; [exact E|apply cm_drop_rx]|exact E]).
+  destruct (_ && _); [|exact E2]. change (cm s (do_force_close s2) c). eapply cm_trans; [exact E2|apply cm_force_close].
+Qed.
+
+Lemma cm_ack_one s k id c : (c < length (chans s))%nat -> cm s (ack_one s k id) c.
+Proof.
+  intros L. unfold ack_one. destruct (negb _); [cme|]. destruct (_ || _); [cme|].
+  destruct (id =? 0); [apply cm_close|]. destruct (_ && _); [cme|]. unfold pkt_ack, pkt_ack_inner.
+  destruct (inflight s) as [|[[i tx] tp] rest]; [apply cm_close|].
+  assert (DT : cm s (drop_tx_opt (set_inflight s rest) tx) c).
+  { rewrite drop_tx_opt_eq. unfold cm. sk. destruct tx; [apply cmx_drop_tx|apply cmx_refl]. }
+  assert (SD : forall s0 v, chans s0 = chans s -> cm s (send_opt s0 tx v) c).
+  { intros s0 v E. unfold send_opt. destruct tx; [|now apply cm_eq]. rewrite send_eq. unfold cm. sk. rewrite E. apply cmx_send. }
+  destruct (negb (i =? id)); [eapply cm_trans; [exact DT|apply cm_close]|].
+  destruct (negb (k =? tp)); [eapply cm_trans; [exact DT|apply cm_close]|].
+  destruct (k =? 2).
+  { unfold new_chan, rxm_insert. cbn [fst snd]. sk. cbn [fst snd].
+    pose proof (SD (set_inflight s rest) k eq_refl) as S1. set (s1 := send_opt (set_inflight s rest) tx k) in *.
+    assert (L1 : (c < length (chans s1))%nat).
+    { unfold s1, send_opt. destruct tx; [rewrite send_eq; sk; now rewrite ch_send_length|exact L]. }
+    destruct (rxm_find _ _); unfold drop_rx; sk; eapply cm_trans; try exact S1; unfold cm; sk.
+    - eapply cmx_trans; [apply cmx_app; exact L1|apply cmx_drop_rx].
+    - apply cmx_app; exact L1. }
+  destruct (k =? 3).
+  { eapply cm_trans; [|apply cm_wake]. destruct (rxm_find _ _) as [c0|]; unfold drop_rx; sk.
+    - unfold send_opt. destruct tx; [|unfold cm; sk; apply cmx_drop_rx]. rewrite send_eq. unfold cm. sk.
+      eapply cmx_trans; [apply cmx_drop_rx|apply cmx_send].
+    - now apply SD. }
+  eapply cm_trans; [|apply cm_wake]. now apply SD.
+Qed.
+
+Lemma ack_one_length s k id : (length (chans s) <= length (chans (ack_one s k id)))%nat.
+Proof.
+  unfold ack_one. destruct (negb _); auto. destruct (_ || _); auto.
+  assert (C : forall s0, length (chans (do_close s0)) = length (chans s0)).
+  { intros s0. destruct (do_close_spec s0) as (s2 & -> & C). rewrite clear_queues_eq. sk. unfold cleared.
+    rewrite fold_dtx_length. f_equal. apply C. }
+  destruct (id =? 0); [rewrite C; auto|]. destruct (_ && _); auto. unfold pkt_ack, pkt_ack_inner.
+  destruct (inflight s) as [|[[i tx] tp] rest]; [rewrite C; auto|].
+  assert (D : forall s0, length (chans (drop_tx_opt s0 tx)) = length (chans s0)).
+  { intros s0. rewrite drop_tx_opt_eq. sk. destruct tx; auto using ch_drop_tx_length. }
+  assert (S : forall s0 v, length (chans (send_opt s0 tx v)) = length (chans s0)).
+  { intros s0 v. unfold send_opt. destruct tx; auto. rewrite send_eq. sk. apply ch_send_length. }
+  destruct (negb (i =? id)); [rewrite C, D; auto|]. destruct (negb (k =? tp)); [rewrite C, D; auto|].
+  destruct (k =? 2).
+  { unfold new_chan, rxm_insert. cbn [fst snd]. sk. cbn [fst snd]. destruct (rxm_find _ _); unfold drop_rx; sk;
+      rewrite ?ch_drop_rx_length, app_length, S; sk; lia. }
+  destruct (k =? 3).
+  { rewrite wake_eq. sk. rewrite wake_go_length, S. destruct (rxm_find _ _); unfold drop_rx; sk; rewrite ?ch_drop_rx_length; auto. }
+  rewrite wake_eq. sk. rewrite wake_go_length, S. auto.
+Qed.
+
+Lemma cm_ack_list l : forall s c, (c < length (chans s))%nat -> cm s (ack_list s l) c.
+Proof.
+  induction l as [|[k id] r IH]; intros s c L; cbn [ack_list]; [apply cm_refl|].
+  eapply cm_trans; [now apply cm_ack_one|]. apply IH. pose proof (ack_one_length s k id). lia.
+Qed.
+
+(* for every operation: a window-waiter channel never re-opens, a woken one stays woken *)
+Lemma step_cm ks s o c :
+  inv ks s -> (c < length (chans s))%nat -> kof ks c = Some KW -> cm s (sink_step s o) c.
+Proof.
+  intros I L A. destruct o as [t k i z|t|t|l|t|t|on|n| | |n|t n|t|t| |t k i z]; cbn [sink_step].
+  - now apply cm_start with ks.
+  - now apply cm_poll with ks.
+  - now apply cm_drop with ks.
+  - now apply cm_ack_list.
+  - apply cm_release.
+  - apply cm_drop_receipt.
+  - apply cm_wrb.
+  - unfold do_set_cap. eapply cm_trans; [apply cm_wake|cme].
+  - apply cm_close.
+  - apply cm_force_close.
+  - cme.
+  - now apply cm_chunk.
+  - apply cm_drop_stream.
+  - apply cm_drop_chunk.
+  - cme.
+  - now apply cm_create with ks.
+Qed.
+
+(* ---------------------------------------------------------------- counting parked tasks *)
+(* parked in the window (send) or in ready(), and not woken: the waiter channel is still open *)
+Definition unwoken (s : sink) (x : task) : bool :=
+  match twait (tst x) with
+  | Some c => match c_st (cg s c) with COpen => true | _ => false end
+  | None => false
+  end.
+(* woken (the waiter channel is filled) and not polled since *)
+Definition woken (s : sink) (x : task) : bool :=
+  match twait (tst x) with
+  | Some c => match c_st (cg s c) with CFilled => true | _ => false end
+  | None => false
+  end.
+Fixpoint cnt (P : task -> bool) (l : list (N * task)) : N :=
+  match l with [] => 0 | (_, x) :: r => b2n (P x) + cnt P r end.
+Definition nU (s : sink) : N := cnt (unwoken s) (tasks s).
+Definition nW (s : sink) : N := cnt (woken s) (tasks s).
+
+Definition wake_ok (s : sink) : Prop :=
+  0 < nU s -> cap s <= lenN (inflight s) + nW s \/ wrb s = true.
+
+Lemma cnt_le P Q l : (forall t x, In (t, x) l -> P x = true -> Q x = true) -> cnt P l <= cnt Q l.
+Proof.
+  induction l as [|[t x] r IH]; intros H; cbn [cnt]; [lia|].
+  assert (b2n (P x) <= b2n (Q x)).
+  { destruct (P x) eqn:E; cbn [b2n]; [rewrite (H t x (or_introl eq_refl) E); cbn; lia|destruct (Q x); cbn; lia]. }
+  assert (cnt P r <= cnt Q r) by (apply IH; intros t0 x0 Hin0 Pt0; apply (H t0 x0); [now right|exact Pt0]). lia.
+Qed.
+Lemma cnt_pos P l : 0 < cnt P l -> exists t x, In (t, x) l /\ P x = true.
+Proof.
+  induction l as [|[t x] r IH]; cbn [cnt]; [lia|]. destruct (P x) eqn:E.
+  - intros _. exists t, x. split; auto. now left.
+  - cbn [b2n]. intros H. destruct IH as (t' & x' & A & B); [lia|]. exists t', x'. split; auto. now right.
+Qed.
+Lemma cnt_in P l t x : In (t, x) l -> P x = true -> 0 < cnt P l.
+Proof.
+  induction l as [|[t' x'] r IH]; cbn [cnt In]; [tauto|]. intros [E|H] Px.
+  - injection E as -> ->. rewrite Px. cbn. lia.
+  - specialize (IH H Px). lia.
+Qed.
+
+(* replacing (or adding) the entry of task t *)
+Lemma cnt_put_le P P' t x' l : sortedk l ->
+  (forall t2 x2, In (t2, x2) l -> t2 <> t -> P' x2 = true -> P x2 = true) ->
+  cnt P' (put_task t x' l) <= cnt P l + b2n (P' x').
+Proof.
+  induction l as [|[i y] r IH]; intros S H; cbn [put_task cnt]; [lia|].
+  cbn [sortedk] in S. destruct S as [S1 S2].
+  assert (R : cnt P' r <= cnt P r \/ True) by auto.
+  destruct (N.eqb_spec i t) as [->|N1]; cbn [cnt].
+  - assert (cnt P' r <= cnt P r).
+    { apply cnt_le. intros t2 x2 H2 Px. apply (H t2 x2); auto; [now right|]. apply S1 in H2. lia. }
+    destruct (P y); cbn [b2n]; lia.
+  - destruct (N.ltb_spec t i) as [Lt|Ge]; cbn [cnt].
+    + assert (b2n (P' y) + cnt P' r <= b2n (P y) + cnt P r).
+      { change (cnt P' ((i, y) :: r) <= cnt P ((i, y) :: r)). apply cnt_le. intros t2 x2 H2 Px. apply (H t2 x2); auto.
+        destruct H2 as [E|H2]; [injection E as <- <-; auto|]. apply S1 in H2. lia. }
+      lia.
+    + assert (cnt P' (put_task t x' r) <= cnt P r + b2n (P' x')).
+      { apply IH; auto. intros t2 x2 H2. apply H. now right. }
+      assert (b2n (P' y) <= b2n (P y)).
+      { destruct (P' y) eqn:E; cbn [b2n]; [|destruct (P y); cbn; lia]. rewrite (H i y); auto; [cbn; lia|now left]. }
+      lia.
+Qed.
+
+Lemma cnt_put_ge P P' t x' l : sortedk l ->
+  (forall t2 x2, In (t2, x2) l -> t2 <> t -> P x2 = true -> P' x2 = true) ->
+  cnt P l + b2n (P' x') <= cnt P' (put_task t x' l) + match find_task t l with Some xo => b2n (P xo) | None => 0 end.
+Proof.
+  induction l as [|[i y] r IH]; intros S H; cbn [put_task cnt find_task]; [lia|].
+  cbn [sortedk] in S. destruct S as [S1 S2].
+  destruct (N.eqb_spec i t) as [->|N1]; cbn [cnt].
+  - assert (cnt P r <= cnt P' r).
+    { apply cnt_le. intros t2 x2 H2 Px. apply (H t2 x2); auto; [now right|]. apply S1 in H2. lia. }
+    lia.
+  - destruct (N.ltb_spec t i) as [Lt|Ge]; cbn [cnt].
+    + assert (b2n (P y) + cnt P r <= b2n (P' y) + cnt P' r).
+      { change (cnt P ((i, y) :: r) <= cnt P' ((i, y) :: r)). apply cnt_le. intros t2 x2 H2 Px. apply (H t2 x2); auto.
+        destruct H2 as [E|H2]; [injection E as <- <-; auto|]. apply S1 in H2. lia. }
+      assert (F : find_task t r = None).
+      { destruct (find_task t r) as [z|] eqn:F; auto. apply find_task_In in F; auto. apply S1 in F. lia. }
+      rewrite F. lia.
+    + assert (cnt P r + b2n (P' x') <= cnt P' (put_task t x' r) + match find_task t r with Some xo => b2n (P xo) | None => 0 end).
+      { apply IH; auto. intros t2 x2 H2. apply H. now right. }
+      assert (b2n (P y) <= b2n (P' y)).
+      { destruct (P y) eqn:E; cbn [b2n]; [|destruct (P' y); cbn; lia]. rewrite (H i y); auto; [cbn; lia|now left]. }
+      lia.
+Qed.
+
+(* channel monotonicity gives status monotonicity for a task that keeps its state *)
+Lemma status_mono ks s s' x :
+  st_ok ks s x -> (forall c, kof ks c = Some KW -> (c < length (chans s))%nat -> cm s s' c) ->
+  length ks = length (chans s) ->
+  (unwoken s' x = true -> unwoken s x = true) /\ (woken s x = true -> woken s' x = true).
+Proof.
+  intros SO CM LK. unfold unwoken, woken, st_ok in *.
+  destruct (tst x) as [c|c id|id|c|c|e| | |e]; cbn [twait]; auto; destruct SO as (K & _);
+    (assert (L : (c < length (chans s))%nat) by (rewrite <- LK; eapply kof_range; eauto));
+    destruct (CM c K L) as [C1 C2]; fold (cg s c) in C1, C2; fold (cg s' c) in C1, C2; split.
+  all: try (destruct (c_st (cg s' c)) eqn:E; try discriminate; intros _; now rewrite C1).
+  all: destruct (c_st (cg s c)) eqn:E; try discriminate; intros _; now rewrite C2.
+Qed.
+
+Lemma closed_nU0 s : sink_inv s -> io s <> 0 -> nU s = 0.
+Proof.
+  intros [ks I] Hio. destruct (N.eq_dec (nU s) 0) as [|N]; auto. exfalso.
+  destruct (cnt_pos (unwoken s) (tasks s)) as (t & x & H & P); [unfold nU in N; lia|].
+  destruct (i_task _ _ I t x H) as [SO _]. destruct (i_closed _ _ I Hio) as (_ & W & _).
+  unfold unwoken, st_ok in *. destruct (tst x); cbn [twait] in P; try discriminate;
+    destruct SO as (_ & _ & S3); destruct (c_st (cg s c)) eqn:E; try discriminate; specialize (S3 eq_refl); rewrite W in S3; contradiction.
+Qed.
+
+(* generic transfer: nothing lost *)
+Lemma wake_ok_mono s s' :
+  wake_ok s -> cap s' = cap s -> wrb s' = wrb s -> lenN (inflight s) <= lenN (inflight s') ->
+  (0 < nU s' -> 0 < nU s) -> nW s <= nW s' -> wake_ok s'.
+Proof. unfold wake_ok. intros H C W L U Wk P. rewrite C, W. destruct (H (U P)) as [Z|Z]; [left; lia|now right]. Qed.
+
+Lemma settle_counts s : nU (settle s) = nU s /\ nW (settle s) = nW s.
+Proof. unfold settle. destruct (io s =? 1); auto. Qed.
+
+Lemma cnt_put_repl_le P P' t xo x' l : sortedk l -> find_task t l = Some xo ->
+  (P' x' = true -> P xo = true) ->
+  (forall t2 x2, In (t2, x2) l -> t2 <> t -> P' x2 = true -> P x2 = true) ->
+  cnt P' (put_task t x' l) <= cnt P l.
+Proof.
+  induction l as [|[i y] r IH]; intros S F H0 H; cbn [put_task cnt find_task] in *; [discriminate|].
+  cbn [sortedk] in S. destruct S as [S1 S2].
+  destruct (N.eqb_spec i t) as [->|N1]; cbn [cnt].
+  - injection F as ->.
+    assert (cnt P' r <= cnt P r).
+    { apply cnt_le. intros t2 x2 H2 Px. apply (H t2 x2); auto; [now right|]. apply S1 in H2. lia. }
+    assert (b2n (P' x') <= b2n (P xo)) by (destruct (P' x'); cbn [b2n]; [rewrite H0; auto; cbn; lia|destruct (P xo); cbn; lia]).
+    lia.
+  - destruct (N.ltb_spec t i) as [Lt|Ge].
+    + apply find_task_In in F; auto. apply S1 in F. lia.
+    + cbn [cnt]. assert (cnt P' (put_task t x' r) <= cnt P r) by (apply IH; auto; intros t2 x2 H2; apply H; now right).
+      assert (b2n (P' y) <= b2n (P y)).
+      { destruct (P' y) eqn:E; cbn [b2n]; [|destruct (P y); cbn; lia]. rewrite (H i y); auto; [cbn; lia|now left]. }
+      lia.
+Qed.
+
+Lemma cnt_put_repl_ge P P' t xo x' l : sortedk l -> find_task t l = Some xo ->
+  (P xo = true -> P' x' = true) ->
+  (forall t2 x2, In (t2, x2) l -> t2 <> t -> P x2 = true -> P' x2 = true) ->
+  cnt P l <= cnt P' (put_task t x' l).
+Proof.
+  induction l as [|[i y] r IH]; intros S F H0 H; cbn [put_task cnt find_task] in *; [discriminate|].
+  cbn [sortedk] in S. destruct S as [S1 S2].
+  destruct (N.eqb_spec i t) as [->|N1]; cbn [cnt].
+  - injection F as ->.
+    assert (cnt P r <= cnt P' r).
+    { apply cnt_le. intros t2 x2 H2 Px. apply (H t2 x2); auto; [now right|]. apply S1 in H2. lia. }
+    assert (b2n (P xo) <= b2n (P' x')) by (destruct (P xo); cbn [b2n]; [rewrite H0; auto; cbn; lia|destruct (P' x'); cbn; lia]).
+    lia.
+  - destruct (N.ltb_spec t i) as [Lt|Ge].
+    + apply find_task_In in F; auto. apply S1 in F. lia.
+    + cbn [cnt]. assert (cnt P r <= cnt P' (put_task t x' r)) by (apply IH; auto; intros t2 x2 H2; apply H; now right).
+      assert (b2n (P y) <= b2n (P' y)).
+      { destruct (P y) eqn:E; cbn [b2n]; [|destruct (P' y); cbn; lia]. rewrite (H i y); auto; [cbn; lia|now left]. }
+      lia.
+Qed.
+
+(* the task table changes at one entry at most, which keeps its waiter channel *)
+Definition tasks_tw (s s' : sink) : Prop :=
+  tasks s' = tasks s \/
+  exists t xo x', find_task t (tasks s) = Some xo /\ tasks s' = put_task t x' (tasks s) /\ tst x' = tst xo.
+(* ... or a state without a waiter channel before and after *)
+Definition tasks_nw (s s' : sink) : Prop :=
+  tasks s' = tasks s \/
+  exists t xo x', find_task t (tasks s) = Some xo /\ tasks s' = put_task t x' (tasks s) /\
+                  twait (tst x') = twait (tst xo).
+
+Lemma tw_nw s s' : tasks_tw s s' -> tasks_nw s s'.
+Proof. intros [H|(t & xo & x' & A & B & C)]; [now left|right]. exists t, xo, x'. rewrite C. auto. Qed.
+
+Lemma counts_nw ks s s' :
+  inv ks s -> tasks_nw s s' -> (forall c, kof ks c = Some KW -> (c < length (chans s))%nat -> cm s s' c) ->
+  nU s' <= nU s /\ nW s <= nW s'.
+Proof.
+  intros I T CM. pose proof (i_len _ _ I) as LK.
+  assert (MONO : forall t x, In (t, x) (tasks s) ->
+     (unwoken s' x = true -> unwoken s x = true) /\ (woken s x = true -> woken s' x = true)).
+  { intros t x H. destruct (i_task _ _ I t x H) as [SO _]. eapply status_mono; eauto. }
+  unfold nU, nW. destruct T as [-> | (t & xo & x' & F & -> & TW)].
+  - split; apply cnt_le; intros t x H; apply (MONO t x H).
+  - assert (H : In (t, xo) (tasks s)) by (apply find_task_In; auto; apply I).
+    assert (EU : unwoken s' x' = unwoken s' xo) by (unfold unwoken; now rewrite TW).
+    assert (EW : woken s' x' = woken s' xo) by (unfold woken; now rewrite TW).
+    split.
+    + apply cnt_put_repl_le with xo; auto; [apply I|rewrite EU; apply (MONO t xo H)|intros t2 x2 H2 _; apply (MONO t2 x2 H2)].
+    + apply cnt_put_repl_ge with xo; auto; [apply I|rewrite EW; apply (MONO t xo H)|intros t2 x2 H2 _; apply (MONO t2 x2 H2)].
+Qed.
+
+(* shape of the task table after the operations that do not start / poll / drop a task *)
+Lemma nw_put s s1 t x st' : find_task t (tasks s) = Some x -> tasks s1 = tasks s -> twait st' = twait (tst x) ->
+  tasks_nw s (set_tasks s1 (put_task t (with_tst x st') (tasks s1))).
+Proof. intros F E T. right. exists t, x, (with_tst x st'). sk. rewrite E. auto. Qed.
+Lemma nw_put_stream s s1 t x sm1 : find_task t (tasks s) = Some x -> tasks s1 = tasks s ->
+  tasks_nw s (set_tasks s1 (put_task t (with_stream x sm1) (tasks s1))).
+Proof. intros F E. right. exists t, x, (with_stream x sm1). sk. rewrite E. auto. Qed.
+
+Lemma release_tw s t : tasks_nw s (release_task s t).
+Proof.
+  unfold release_task. destruct (find_task t (tasks s)) as [x|] eqn:F; [|now left].
+  destruct (tst x) eqn:E; try (now left). unfold release_publish. destruct (rxm_find _ _) as [c|].
+  - destruct (enc_packet _ _ _) as [s2 ok] eqn:EP. destruct (enc_packet_core _ _ _ _ _ EP) as (_&_&_&_&_&_&_&E8). sk in E8.
+    destruct ok; [destruct (poll s2 c)|]; apply nw_put; auto; rewrite E; reflexivity.
+  - apply nw_put; auto. rewrite E. reflexivity.
+Qed.
+Lemma drop_receipt_tw s t : tasks_nw s (drop_receipt s t).
+Proof.
+  unfold drop_receipt. destruct (find_task t (tasks s)) as [x|] eqn:F; [|now left].
+  destruct (tst x) eqn:E; try (now left). unfold release_publish. destruct (rxm_find _ _) as [c|].
+  - destruct (enc_packet _ _ _) as [s2 ok] eqn:EP. destruct (enc_packet_core _ _ _ _ _ EP) as (_&_&_&_&_&_&_&E8). sk in E8.
+    apply nw_put; auto. rewrite E. reflexivity.
+  - apply nw_put; auto. rewrite E. reflexivity.
+Qed.
+
+Lemma epp_tasks s n : tasks (fst (fst (encode_publish_payload s n))) = tasks s.
+Proof. destruct (epp_cases s n) as [-> | C]; [unfold do_force_close; rewrite clear_queues_eq; reflexivity|apply C]. Qed.
+Lemma chunk_payload_tasks s sm srx n : tasks (fst (chunk_payload s sm srx n)) = tasks s.
+Proof. unfold chunk_payload. pose proof (epp_tasks s n) as E. destruct (encode_publish_payload s n) as [[s1 st] more]. exact E. Qed.
+Lemma chunk_inprocess_tasks s sm srx inp n : tasks (fst (chunk_inprocess s sm srx inp n)) = tasks s.
+Proof.
+  unfold chunk_inprocess. destruct inp; auto. destruct (is_closed s); auto. destruct (wrb s); [|apply chunk_payload_tasks].
+  unfold new_chan. sk. cbn [fst]. rewrite drop_tx_opt_eq. reflexivity.
+Qed.
+Lemma chunk_signal_tasks s sm n : tasks (fst (chunk_signal s sm n)) = tasks s.
+Proof. unfold chunk_signal. destruct (poll _ _); auto. apply chunk_inprocess_tasks. Qed.
+
+Lemma chunk_tw s t n : tasks_nw s (chunk_task s t n).
+Proof.
+  unfold chunk_task. destruct (find_task t (tasks s)) as [x|] eqn:F; [|now left].
+  destruct (tstream x) as [sm|]; [|now left]. destruct (negb _); [now left|].
+  assert (G : forall r : sink * stream, tasks (fst r) = tasks s ->
+     tasks_nw s (let '(s1, sm1) := r in set_tasks s1 (put_task t (with_stream x sm1) (tasks s1)))).
+  { intros [s1 sm1] H. cbn [fst] in H. now apply nw_put_stream. }
+  apply G. destruct (pend sm) as [|m|c0 m].
+  - destruct (s_rx sm); [apply chunk_signal_tasks|apply chunk_inprocess_tasks].
+  - apply chunk_signal_tasks.
+  - destruct (poll s c0); auto. apply chunk_payload_tasks.
+Qed.
+Lemma drop_chunk_tw s t : tasks_nw s (drop_chunk s t).
+Proof.
+  unfold drop_chunk. destruct (find_task t (tasks s)) as [x|] eqn:F; [|now left].
+  destruct (tstream x) as [sm|]; [|now left]. destruct (negb _); [now left|].
+  pose proof (drop_pending_tasks s sm) as E.
+  destruct (pend sm); [now left| |]; destruct (drop_pending s sm) as [s1 sm1]; cbn [fst] in E; now apply nw_put_stream.
+Qed.
+Lemma drop_stream_tw s t : tasks_nw s (drop_stream s t).
+Proof.
+  unfold drop_stream. destruct (find_task t (tasks s)) as [x|] eqn:F; [|now left].
+  destruct (tstream x) as [sm|]; [|now left]. destruct (negb _); [now left|].
+  pose proof (drop_pending_tasks s sm) as E. destruct (drop_pending s sm) as [s1 sm1]. cbn [fst] in E.
+  set (s2 := if s_rx sm1 then drop_rx s1 (sg sm1) else s1).
+  assert (E2 : tasks s2 = tasks s) by (unfold s2; destruct (s_rx sm1); exact E).
+  destruct (_ && _); apply nw_put_stream; auto.
+  unfold do_force_close. rewrite clear_queues_eq. exact E2.
+Qed.
+
+Lemma cnt_split P Q l : (forall t x, In (t, x) l -> P x = true -> Q x = true) ->
+  cnt P l + cnt (fun x => Q x && negb (P x)) l = cnt Q l.
+Proof.
+  induction l as [|[t x] r IH]; intros H; cbn [cnt]; [lia|].
+  assert (E : cnt P r + cnt (fun x => Q x && negb (P x)) r = cnt Q r) by (apply IH; intros t0 x0 Hi; apply (H t0 x0); now right).
+  specialize (H t x (or_introl eq_refl)). destruct (P x) eqn:EP; [rewrite H by auto|]; destruct (Q x); cbn [b2n andb negb]; lia.
+Qed.
+
+Lemma lenN_remove c w : NoDup w -> In c w -> lenN w = 1 + lenN (remove Nat.eq_dec c w).
+Proof.
+  induction w as [|y w IH]; intros ND Hi; [contradiction|]. inversion ND as [|? ? N1 N2]; subst. cbn [remove].
+  destruct (Nat.eq_dec c y) as [->|NE].
+  - rewrite lenN_cons. rewrite notin_remove by auto. reflexivity.
+  - destruct Hi as [E|Hi]; [congruence|]. rewrite !lenN_cons, (IH N2 Hi). lia.
+Qed.
+
+Lemma NoDup_remove' c w : NoDup w -> NoDup (remove Nat.eq_dec c w).
+Proof.
+  induction w as [|y w IH]; intros ND; cbn [remove]; auto. inversion ND as [|? ? N1 N2]; subst.
+  destruct (Nat.eq_dec c y); auto. constructor; auto. intros H. apply in_remove in H as [H _]. contradiction.
+Qed.
+
+(* [w] channels, each the waiter channel of some task satisfying R: at least |w| tasks satisfy R *)
+Lemma cnt_inj (R : task -> bool) l : forall w, NoDup w ->
+  (forall c, In c w -> exists t x, In (t, x) l /\ twait (tst x) = Some c /\ R x = true) ->
+  lenN w <= cnt R l.
+Proof.
+  induction l as [|[t0 x0] r IH]; intros w ND H.
+  - destruct w as [|c w]; [rewrite lenN_nil; cbn; lia|]. destruct (H c (or_introl eq_refl)) as (t & x & [] & _).
+  - cbn [cnt].
+    assert (D : (exists c0, twait (tst x0) = Some c0 /\ In c0 w /\ R x0 = true) \/
+                (forall c, In c w -> exists t x, In (t, x) r /\ twait (tst x) = Some c /\ R x = true)).
+    { destruct (twait (tst x0)) as [c0|] eqn:E0.
+      - destruct (in_dec Nat.eq_dec c0 w) as [Hi|Hn].
+        + destruct (R x0) eqn:ER; [left; eauto|]. right. intros c Hc. destruct (H c Hc) as (t & x & [Q|Q] & A & B); eauto.
+          injection Q as <- <-. congruence.
+        + right. intros c Hc. destruct (H c Hc) as (t & x & [Q|Q] & A & B); eauto. injection Q as <- <-. congruence.
+      - right. intros c Hc. destruct (H c Hc) as (t & x & [Q|Q] & A & B); eauto. injection Q as <- <-. congruence. }
+    destruct D as [(c0 & E0 & Hi & ER)|D].
+    + rewrite ER. cbn [b2n]. rewrite (lenN_remove c0 w ND Hi).
+      assert (lenN (remove Nat.eq_dec c0 w) <= cnt R r).
+      { apply IH; [now apply NoDup_remove'|]. intros c Hc. apply in_remove in Hc as [Hc NE].
+        destruct (H c Hc) as (t & x & [Q|Q] & A & B); eauto. injection Q as <- <-. congruence. }
+      lia.
+    + specialize (IH w ND D). lia.
+Qed.
+
+Lemma kw_cm_of (s s' : sink) (ks : list ck) :
+  (forall c, (c < length (chans s))%nat -> cm s s' c) ->
+  forall c, kof ks c = Some KW -> (c < length (chans s))%nat -> cm s s' c.
+Proof. auto. Qed.
+
+(* wake n: exactly n parked tasks become woken, unless no un-woken parked task is left *)
+Lemma wake_counts ks s n : inv ks s ->
+  nU (wake s n) <= nU s /\ exists m, nW s + m <= nW (wake s n) /\ (0 < nU (wake s n) -> m = n).
+Proof.
+  intros I. pose proof (inv_wake ks s n I) as I'.
+  assert (T : tasks (wake s n) = tasks s) by (rewrite wake_eq; reflexivity).
+  destruct (counts_nw ks s (wake s n) I (or_introl T)) as [CU CW]; [intros c _ _; apply cm_wake|].
+  split; auto.
+  destruct (wake_go_spec (waiters s) (chans s) n (i_wsnd _ _ I)) as (p & w & W1 & W2 & W3 & W4 & W5 & W6).
+  exists (lenN w). split.
+  - unfold nW. rewrite T. rewrite <- (cnt_split (woken s) (woken (wake s n)) (tasks s)).
+    + apply N.add_le_mono_l. apply cnt_inj; auto. intros c Hc. apply W2 in Hc as [Hp Hr].
+      assert (Hw : In c (waiters s)) by (rewrite W1; apply in_or_app; now left).
+      destruct (i_wtask _ _ I c Hw Hr) as (t & x & Hx & Tw). exists t, x. split; auto. split; auto.
+      destruct (i_ws _ _ I c Hw) as [_ O]. unfold woken. rewrite Tw, O. cbn [negb]. rewrite andb_true_r.
+      unfold cg. rewrite wake_eq. sk. rewrite W3.
+      assert (E : existsb (Nat.eqb c) w = true) by (apply existsb_eqb_In; apply W2; auto). now rewrite E.
+    + intros t x Hx Px. destruct (i_task _ _ I t x Hx) as [SO _].
+      refine (proj2 (status_mono ks s (wake s n) x SO _ (i_len _ _ I)) Px). intros c _ _. apply cm_wake.
+  - intros P. destruct W6 as [W6|W6]; auto. exfalso.
+    destruct (cnt_pos _ _ P) as (t & x & Hx & Ux). destruct (i_task _ _ I' t x Hx) as [SO _].
+    assert (WS : waiters (wake s n) = []) by (rewrite wake_eq; sk; exact W6).
+    unfold unwoken, st_ok in *. destruct (tst x); cbn [twait] in Ux; try discriminate;
+      destruct SO as (_ & _ & S3); destruct (c_st (cg (wake s n) c)) eqn:E; try discriminate;
+      specialize (S3 eq_refl); rewrite WS in S3; contradiction.
+Qed.
+
+Lemma cm_all_kw (s s' : sink) (ks : list ck) :
+  (forall c, (c < length (chans s))%nat -> cm s s' c) ->
+  forall c, kof ks c = Some KW -> (c < length (chans s))%nat -> cm s s' c.
+Proof. auto. Qed.
+
+Lemma wake_ok_closed s : sink_inv s -> io s <> 0 -> wake_ok s.
+Proof. intros SI Hio P. rewrite (closed_nU0 s SI Hio) in P. lia. Qed.
+
+Lemma is_final_inner s k id : is_final s k id = true ->
+  io s = 0 /\ k <> 2 /\ exists s1, pkt_ack_inner s k id = (s1, true) /\ ack_one s k id = s1.
+Proof.
+  unfold is_final. intros F. repeat (apply andb_true_iff in F as [F ?]).
+  apply N.eqb_eq in F. split; auto. split; [intros ->; discriminate|].
+  assert (HM : head_matches s k id = true) by exact H.
+  pose proof (pkt_ack_inner_ok s k id HM) as OK. destruct (pkt_ack_inner s k id) as [s1 ok] eqn:E. cbn [snd] in OK. subst ok.
+  exists s1. split; auto. unfold ack_one, pkt_ack. rewrite F. replace (negb (0 =? 0)) with false by reflexivity.
+  apply negb_true_iff in H3. rewrite H3. apply negb_true_iff in H2. rewrite H2. apply negb_true_iff in H1. rewrite H1.
+  now rewrite E.
+Qed.
+
+Lemma wake_ok_ack_one s k id : sink_inv s -> wake_ok s -> wake_ok (ack_one s k id).
+Proof.
+  intros SI WO. pose proof (inv_ack_one s k id SI) as SI'.
+  destruct (N.eq_dec (io (ack_one s k id)) 0) as [Z|Z]; [|now apply wake_ok_closed].
+  destruct (ack_one_eff s k id) as (A1 & A2 & A3 & A4 & A5 & A6). specialize (A4 Z).
+  destruct SI as [ks I].
+  assert (CM : forall c, kof ks c = Some KW -> (c < length (chans s))%nat -> cm s (ack_one s k id) c).
+  { intros c _ L. now apply cm_ack_one. }
+  pose proof (ack_one_tasks s k id) as T.
+  destruct (counts_nw ks s (ack_one s k id) I (or_introl T) CM) as [CU CW].
+  destruct (is_final s k id) eqn:F.
+  - destruct A5 as [_ A5]. destruct (is_final_inner s k id F) as (Hio & K2 & s1 & E & ES).
+    destruct (inv_ack_pre ks s k id s1 I Hio K2 E) as (s2 & -> & (c & rest & P1 & P2 & P3 & P4 & P5 & P6 & P7 & P8) & I2).
+    rewrite ES in *.
+    destruct (wake_counts ks s2 1 I2) as [W1 (m & W2 & W3)].
+    assert (CM2 : forall c0, kof ks c0 = Some KW -> (c0 < length (chans s))%nat -> cm s s2 c0).
+    { intros c0 _ _. unfold cm. destruct P8 as [-> | ->]; [apply cmx_send|apply cmx_drop_rx]. }
+    destruct (counts_nw ks s s2 I (or_introl P3) CM2) as [CU2 CW2].
+    intros P. specialize (W3 P). subst m. rewrite A1, A2.
+    assert (P0 : 0 < nU s) by lia. destruct (WO P0) as [Q|Q]; [left; lia|now right].
+  - destruct A5 as [[A5 _]|[_ A5]]; [|contradiction].
+    apply wake_ok_mono with s; auto; lia.
+Qed.
+
+Lemma wake_ok_ack_list l : forall s, sink_inv s -> wake_ok s -> wake_ok (ack_list s l).
+Proof.
+  induction l as [|[k id] r IH]; intros s SI WO; cbn [ack_list]; auto.
+  apply IH; [now apply inv_ack_one|now apply wake_ok_ack_one].
+Qed.
+
+Lemma wake_ok_set_cap s n : sink_inv s -> wake_ok (do_set_cap s n).
+Proof.
+  intros [ks I]. destruct (wake_counts ks s n I) as [W1 (m & W2 & W3)]. unfold do_set_cap.
+  intros P. left. change (n <= lenN (inflight (wake s n)) + nW (wake s n)). specialize (W3 P). lia.
+Qed.
+
+Lemma wake_ok_wrb s on : sink_inv s -> wake_ok (do_wrb s on).
+Proof.
+  intros [ks I]. unfold do_wrb. destruct on; [intros _; now right|].
+  set (s1 := set_wrb s false).
+  assert (I1 : inv ks s1) by (apply inv_core with s; auto).
+  set (s2 := match swait s1 with Some c0 => set_swait (fst (send s1 c0 0)) None | None => s1 end).
+  assert (I2 : inv ks s2) by (unfold s2; destruct (swait s1) as [c0|] eqn:E; auto; now apply inv_swait_send).
+  assert (F : cap s2 = cap s /\ inflight s2 = inflight s).
+  { unfold s2. destruct (swait s1); [rewrite send_eq|]; auto. }
+  destruct F as [F1 F2].
+  destruct (N.ltb_spec (lenN (inflight s2)) (cap s2)) as [L|L].
+  - destruct (wake_counts ks s2 (cap s2 - lenN (inflight s2)) I2) as [W1 (m & W2 & W3)].
+    intros P. left. specialize (W3 P). rewrite wake_eq in *. sk. sk in W2. lia.
+  - intros _. left. lia.
+Qed.
+
+(* ---------------------------------------------------------------- the recorded findings, as an executable predicate *)
+Definition is_done (st : tstate) : bool := match st with TDone _ => true | _ => false end.
+(* Q: a woken task is dropped before it is polled again *)
+Definition known_q (s : sink) (o : op) : bool :=
+  match o with
+  | ODrop t => match find_task t (tasks s) with Some x => woken s x | None => false end
+  | _ => false
+  end.
+(* Q2: a woken ready() future completes: it consumed a wake-up that a parked sender needed *)
+Definition known_q2 (s : sink) (o : op) : bool :=
+  match o with
+  | OPoll t => match find_task t (tasks s) with
+               | Some x => match tst x with TReadyW _ => woken s x | _ => false end
+               | None => false
+               end
+  | _ => false
+  end.
+(* Qerr: a woken sender ends with a local error before writing *)
+Definition known_qerr (s : sink) (o : op) : bool :=
+  match o with
+  | OPoll t => match find_task t (tasks s) with
+               | Some x => match tst x with
+                           | TParked _ => woken s x &&
+                               match find_task t (tasks (poll_task s t)) with Some x' => is_done (tst x') | None => false end
+                           | _ => false
+                           end
+               | None => false
+               end
+  | _ => false
+  end.
+(* ... each of them while another task is parked and not woken *)
+Definition known_step (s : sink) (o : op) : bool :=
+  (0 <? nU s) && (known_q s o || known_q2 s o || known_qerr s o).
+Fixpoint Known (s : sink) (ops : list op) : bool :=
+  match ops with [] => false | o :: r => known_step (set_wire s []) o || Known (sink_op s o) r end.
+
+(* ---------------------------------------------------------------- one task changes *)
+Lemma one_task_ok ks s s1 t x' :
+  inv ks s -> tasks s1 = put_task t x' (tasks s) ->
+  (forall c, kof ks c = Some KW -> (c < length (chans s))%nat -> cm s s1 c) ->
+  cap s1 = cap s -> wrb s1 = wrb s -> lenN (inflight s) <= lenN (inflight s1) -> wake_ok s ->
+  (unwoken s1 x' = true -> cap s <= lenN (inflight s) \/ wrb s = true) ->
+  (unwoken s1 x' = false -> 0 < nU s -> forall xo, find_task t (tasks s) = Some xo -> woken s xo = true ->
+                             lenN (inflight s) < lenN (inflight s1)) ->
+  wake_ok s1.
+Proof.
+  intros I T CM C W L WO H2 H3 P. pose proof (i_len _ _ I) as LK.
+  assert (MONO : forall t2 x2, In (t2, x2) (tasks s) ->
+     (unwoken s1 x2 = true -> unwoken s x2 = true) /\ (woken s x2 = true -> woken s1 x2 = true)).
+  { intros t2 x2 H. destruct (i_task _ _ I t2 x2 H) as [SO _]. eapply status_mono; eauto. }
+  assert (LE : nU s1 <= nU s + b2n (unwoken s1 x')).
+  { unfold nU. rewrite T. apply cnt_put_le; [apply I|]. intros t2 x2 H _. apply (MONO t2 x2 H). }
+  assert (GE : nW s + b2n (woken s1 x') <= nW s1 + match find_task t (tasks s) with Some xo => b2n (woken s xo) | None => 0 end).
+  { unfold nW. rewrite T. apply cnt_put_ge; [apply I|]. intros t2 x2 H _. apply (MONO t2 x2 H). }
+  rewrite C, W. destruct (unwoken s1 x') eqn:U1.
+  - destruct (H2 eq_refl) as [Q|Q]; [left; lia|now right].
+  - cbn [b2n] in LE. assert (P0 : 0 < nU s) by lia. destruct (WO P0) as [Q|Q]; [left|now right].
+    destruct (find_task t (tasks s)) as [xo|] eqn:F; [|lia].
+    destruct (woken s xo) eqn:Wo; cbn [b2n] in GE; [|lia]. specialize (H3 eq_refl P0 xo eq_refl Wo). lia.
+Qed.
+
+Lemma send_res_tasks s x s1 st : send_res s x s1 st -> tasks s1 = tasks s.
+Proof.
+  intros [s1' e N | s1' Hio CW P | s1' id Hio L W P].
+  - apply N.
+  - unfold parked in P. subst. reflexivity.
+  - apply P.
+Qed.
+
+(* facts every single-task operation shares, from the window summary of C05 *)
+Lemma eff_cases s s' : c05_eff s s' ->
+  cap s' = cap s /\ wrb s' = wrb s /\ (lenN (inflight s) <= lenN (inflight s') \/ io s' <> 0).
+Proof.
+  intros (A & B & [(C1 & _)|[(C1 & C2 & _)|(e & tag & id & C1 & _)]]); repeat split; auto.
+  - left. rewrite C1. lia.
+  - left. rewrite C1, lenN_app. lia.
+Qed.
+
+Lemma unwoken_parked s x : unwoken s x = true -> exists c, twait (tst x) = Some c.
+Proof. unfold unwoken. destruct (twait (tst x)); [eauto|discriminate]. Qed.
+
+Lemma wake_ok_start ks s t k idq size :
+  inv ks s -> settled s -> wake_ok s -> wake_ok (start_task s t k idq size).
+Proof.
+  intros I ST WO. set (s' := start_task s t k idq size).
+  assert (SI' : sink_inv s') by (apply inv_start; auto; now exists ks).
+  destruct (eff_cases s s' (start_eff s t k idq size)) as (C & W & [L|Z]); [|now apply wake_ok_closed].
+  assert (CM : forall c, kof ks c = Some KW -> (c < length (chans s))%nat -> cm s s' c) by (intros; now apply cm_start with ks).
+  destruct (find_task t (tasks s)) eqn:F; [unfold s', start_task; rewrite F; exact WO|].
+  assert (OT : forall x', tasks s' = put_task t x' (tasks s) ->
+     (unwoken s' x' = true -> cap s <= lenN (inflight s) \/ wrb s = true) -> wake_ok s').
+  { intros x' T H2. eapply one_task_ok; eauto. intros _ _ xo Fo. congruence. }
+  unfold s' in *. clear s'.
+  destruct (start_task_spec s t k idq size F) as [ | s1 e K P | e K | s1 K Hio CW P | s0 x s1 st K E0 EX R].
+  - exact WO.
+  - apply OT with (mkTask 6 0 0 (TDone e) false None); [sk; f_equal; apply P|]. intros U. apply unwoken_parked in U as [c U]. discriminate.
+  - apply OT with (mkTask 5 0 0 (TDone e) false None); [reflexivity|]. intros U. apply unwoken_parked in U as [c U]. discriminate.
+  - apply OT with (mkTask 5 0 0 (TReadyW (length (chans s))) false None); [unfold parked in P; subst; reflexivity|auto].
+  - apply OT with (with_tst (no_stream_on_panic x st) st).
+    + sk. rewrite (send_res_tasks _ _ _ _ R). subst s0. destruct (k =? 7); reflexivity.
+    + intros U. apply unwoken_parked in U as [c U]. cbn [with_tst tst] in U.
+      destruct R as [s1 e N | s1 Hio CW P | s1 id Hio L' W' P]; try discriminate.
+      subst s0. destruct (k =? 7); exact CW.
+Qed.
+
+Lemma wake_ok_create ks s t k idq size :
+  inv ks s -> settled s -> wake_ok s -> wake_ok (create_task s t k idq size).
+Proof.
+  intros I ST WO. set (s' := create_task s t k idq size).
+  assert (SI' : sink_inv s') by (apply inv_create; auto; now exists ks).
+  destruct (eff_cases s s' (create_eff s t k idq size)) as (C & W & [L|Z]); [|now apply wake_ok_closed].
+  assert (CM : forall c, kof ks c = Some KW -> (c < length (chans s))%nat -> cm s s' c) by (intros; now apply cm_create with ks).
+  destruct (find_task t (tasks s)) eqn:F; [unfold s', create_task; rewrite F; exact WO|].
+  assert (OT : forall x', tasks s' = put_task t x' (tasks s) ->
+     (unwoken s' x' = true -> cap s <= lenN (inflight s) \/ wrb s = true) -> wake_ok s').
+  { intros x' T H2. eapply one_task_ok; eauto. intros _ _ xo Fo. congruence. }
+  unfold s' in *. clear s'.
+  destruct (create_task_spec s t k idq size F) as [ | K | e K | s1 K Hio CW P | K | s0 x s1 st K E0 EX R].
+  - exact WO.
+  - now apply wake_ok_start with ks.
+  - apply OT with (mkTask 5 0 0 (TDeferred e) false None); [reflexivity|]. intros U. apply unwoken_parked in U as [c U]. discriminate.
+  - apply OT with (mkTask 5 0 0 (TReadyW (length (chans s))) false None); [unfold parked in P; subst; reflexivity|auto].
+  - apply OT with (mkTask k idq 0 TNew false None); [reflexivity|]. intros U. apply unwoken_parked in U as [c U]. discriminate.
+  - apply OT with (with_tst (no_stream_on_panic x st) (defer st)).
+    + sk. rewrite (send_res_tasks _ _ _ _ R). subst s0. destruct (k =? 7); reflexivity.
+    + intros U. apply unwoken_parked in U as [c U]. cbn [with_tst tst] in U.
+      destruct R as [s1 e N | s1 Hio CW P | s1 id Hio L' W' P]; try discriminate.
+      * cbn [defer] in U. destruct (e =? ST_PANIC); discriminate.
+      * subst s0. destruct (k =? 7); exact CW.
+Qed.
+
+Lemma woken_filled s x c : twait (tst x) = Some c -> woken s x = true -> c_st (cg s c) = CFilled.
+Proof. unfold woken. intros ->. destruct (c_st (cg s c)); auto; discriminate. Qed.
+Lemma poll_val_filled s c v : poll s c = PVal v -> c_st (cg s c) = CFilled.
+Proof. unfold poll, ch_poll. fold (cg s c). destruct (c_st (cg s c)); auto; discriminate. Qed.
+Lemma poll_cancel_dropped s c : poll s c = PCanceled -> c_st (cg s c) = CSenderDropped.
+Proof. unfold poll, ch_poll. fold (cg s c). destruct (c_st (cg s c)); auto; discriminate. Qed.
+
+Lemma wake_ok_poll ks s t :
+  inv ks s -> settled s -> wake_ok s -> known_step s (OPoll t) = false -> wake_ok (poll_task s t).
+Proof.
+  intros I ST WO KN. set (s' := poll_task s t).
+  assert (SI : sink_inv s) by now exists ks.
+  assert (SI' : sink_inv s') by (apply inv_poll; auto).
+  destruct (eff_cases s s' (poll_eff s t)) as (C & W & [L|Z]); [|now apply wake_ok_closed].
+  assert (CM : forall c, kof ks c = Some KW -> (c < length (chans s))%nat -> cm s s' c) by (intros; now apply cm_poll with ks).
+  destruct (find_task t (tasks s)) as [x|] eqn:F; [|unfold s', poll_task; rewrite F; exact WO].
+  (* the excluded findings *)
+  unfold known_step, known_q, known_q2, known_qerr in KN. rewrite F in KN. cbn [orb] in KN.
+  assert (KN' : 0 < nU s -> (match tst x with TReadyW _ => woken s x | _ => false end = false) /\
+                 (match tst x with TParked _ => woken s x && match find_task t (tasks s') with Some x' => is_done (tst x') | None => false end | _ => false end = false)).
+  { intros P. apply N.ltb_lt in P. rewrite P in KN. cbn [andb] in KN. apply orb_false_iff in KN. exact KN. }
+  clear KN.
+  assert (OT : forall x', tasks s' = put_task t x' (tasks s) ->
+     (unwoken s' x' = true -> cap s <= lenN (inflight s) \/ wrb s = true) ->
+     (unwoken s' x' = false -> 0 < nU s -> woken s x = true -> lenN (inflight s) < lenN (inflight s')) -> wake_ok s').
+  { intros x' T H2 H3. eapply one_task_ok; eauto. intros U P xo Fo. rewrite F in Fo. injection Fo as <-. auto. }
+  destruct (poll_task_spec s t x F) as (s1 & st & R & E). fold s' in E.
+  assert (FX : find_task t (tasks s') = Some (with_tst x st)) by (rewrite E; sk; apply find_put_same).
+  assert (TS : tasks s1 = tasks s -> tasks s' = put_task t (with_tst x st) (tasks s)) by (intros Q; rewrite E; sk; now rewrite Q).
+  assert (NP : forall st0, twait st0 = None -> unwoken s' (with_tst x st0) = true -> cap s <= lenN (inflight s) \/ wrb s = true).
+  { intros st0 Q U. apply unwoken_parked in U as [c U]. cbn [with_tst tst] in U. congruence. }
+  destruct R as [ | c id E1 P1 | c id v E1 P1 | c E1 P1 | c v E1 P1 | c E1 P1 | c v E1 P1 | c s1 E1 P1 P2 N | c v s1 st E1 P1 Hio R
+                | s1 E1 Hio N | s1 st E1 Hio R | e E1].
+  - (* nothing changes *)
+    assert (TW : tasks_nw s s').
+    { right. exists t, x, (with_tst x (tst x)). repeat split; auto. }
+    destruct (counts_nw ks s s' I TW CM) as [CU CW]. apply wake_ok_mono with s; auto. lia.
+  - apply OT with (with_tst x (TDone ST_DISCONNECTED)); [apply TS; reflexivity|apply NP; reflexivity|].
+    intros _ _ Wo. unfold woken in Wo. rewrite E1 in Wo. discriminate.
+  - apply OT with (with_tst x (if tk x =? 2 then TReceipt id else TDone ST_OK)); [apply TS; reflexivity| |].
+    + apply NP. destruct (tk x =? 2); reflexivity.
+    + intros _ _ Wo. unfold woken in Wo. rewrite E1 in Wo. discriminate.
+  - apply OT with (with_tst x (TDone ST_DISCONNECTED)); [apply TS; reflexivity|apply NP; reflexivity|].
+    intros _ _ Wo. unfold woken in Wo. rewrite E1 in Wo. discriminate.
+  - apply OT with (with_tst x (TDone ST_OK)); [apply TS; reflexivity|apply NP; reflexivity|].
+    intros _ _ Wo. unfold woken in Wo. rewrite E1 in Wo. discriminate.
+  - apply OT with (with_tst x (TDone ST_DISCONNECTED)); [apply TS; reflexivity|apply NP; reflexivity|].
+    intros _ _ Wo. apply (woken_filled s x c) in Wo; [|now rewrite E1]. apply poll_cancel_dropped in P1. congruence.
+  - apply OT with (with_tst x (TDone ST_OK)); [apply TS; reflexivity|apply NP; reflexivity|].
+    intros _ P Wo. destruct (KN' P) as [K1 _]. rewrite E1 in K1. congruence.
+  - apply OT with (with_tst x (TDone ST_DISCONNECTED)); [apply TS; apply N|apply NP; reflexivity|].
+    intros _ P Wo. destruct P2 as [P2|P2].
+    + apply (woken_filled s x c) in Wo; [|now rewrite E1]. apply poll_cancel_dropped in P2. congruence.
+    + rewrite (closed_nU0 s SI) in P; [lia|]. rewrite P2. discriminate.
+  - pose proof (send_res_tasks _ _ _ _ R) as T1. apply OT with (with_tst x st); [apply TS; exact T1| |].
+    + intros U. apply unwoken_parked in U as [c0 U]. cbn [with_tst tst] in U.
+      destruct R as [s1 e N | s1 Hio' CW P | s1 id Hio' L' W' P]; try discriminate. exact CW.
+    + intros U P Wo. destruct R as [s1 e N | s1 Hio' CW P' | s1 id Hio' L' W' P'].
+      * exfalso. destruct (KN' P) as [_ K2]. rewrite E1, Wo, FX in K2. discriminate.
+      * exfalso. (* re-parked on a fresh open channel: it is un-woken *)
+        unfold unwoken in U. cbn [with_tst tst twait] in U. unfold parked in P'. rewrite E in U. subst s1.
+        unfold cg in U. sk in U. rewrite ch_get_app_new in U. discriminate.
+      * rewrite E. sk. destruct P' as (_&_&_&P4&_). rewrite P4, lenN_app. rewrite lenN_cons, lenN_nil. lia.
+  - apply OT with (with_tst x (TDone ST_DISCONNECTED)); [apply TS; apply N|apply NP; reflexivity|].
+    intros _ _ Wo. unfold woken in Wo. rewrite E1 in Wo. discriminate.
+  - pose proof (send_res_tasks _ _ _ _ R) as T1. apply OT with (with_tst x st); [apply TS; exact T1| |].
+    + intros U. apply unwoken_parked in U as [c0 U]. cbn [with_tst tst] in U.
+      destruct R as [s1 e N | s1 Hio' CW P | s1 id Hio' L' W' P]; try discriminate. exact CW.
+    + intros _ _ Wo. unfold woken in Wo. rewrite E1 in Wo. discriminate.
+  - apply OT with (with_tst x (TDone e)); [apply TS; reflexivity|apply NP; reflexivity|].
+    intros _ _ Wo. unfold woken in Wo. rewrite E1 in Wo. discriminate.
+Qed.
+
+Lemma wake_ok_drop ks s t :
+  inv ks s -> wake_ok s -> known_step s (ODrop t) = false -> wake_ok (drop_task s t).
+Proof.
+  intros I WO KN. set (s' := drop_task s t).
+  assert (SI' : sink_inv s') by (apply inv_drop; now exists ks).
+  destruct (eff_cases s s' (drop_eff s t)) as (C & W & [L|Z]); [|now apply wake_ok_closed].
+  assert (CM : forall c, kof ks c = Some KW -> (c < length (chans s))%nat -> cm s s' c) by (intros; now apply cm_drop with ks).
+  destruct (find_task t (tasks s)) as [x|] eqn:F; [|unfold s', drop_task; rewrite F; exact WO].
+  unfold known_step, known_q, known_q2, known_qerr in KN. rewrite F in KN. rewrite !orb_false_r in KN.
+  assert (OT : tasks s' = put_task t (with_tst x TDropped) (tasks s) -> wake_ok s').
+  { intros T. eapply one_task_ok; eauto.
+    - intros U. apply unwoken_parked in U as [c U]. discriminate.
+    - intros _ P xo Fo Wo. rewrite F in Fo. injection Fo as <-. apply N.ltb_lt in P. rewrite P, Wo in KN. discriminate. }
+  unfold s', drop_task in *. rewrite F in *.
+  destruct (tst x) as [c|c id|id|c|c|e| | |e]; try exact WO; apply OT; cbv zeta; sk; auto.
+  rewrite (nc_tasks _ _ (drop_sig_nc (drop_rx s c) x)). reflexivity.
+Qed.
+
+(* the operations that neither create / poll / drop a task nor wake anybody *)
+Lemma wake_ok_other ks s s' :
+  inv ks s -> sink_inv s' -> wake_ok s -> c05_eff s s' -> tasks_nw s s' ->
+  (forall c, kof ks c = Some KW -> (c < length (chans s))%nat -> cm s s' c) -> wake_ok s'.
+Proof.
+  intros I SI' WO EF TW CM. destruct (eff_cases s s' EF) as (C & W & [L|Z]); [|now apply wake_ok_closed].
+  destruct (counts_nw ks s s' I TW CM) as [CU CW]. apply wake_ok_mono with s; auto. lia.
+Qed.
+
+Lemma wake_ok_step s o :
+  sink_inv s -> settled s -> wake_ok s -> known_step s o = false -> wake_ok (sink_step s o).
+Proof.
+  intros SI ST WO KN. pose proof (inv_step s o SI ST) as SI'. destruct SI as [ks I].
+  assert (CMA : forall c, kof ks c = Some KW -> (c < length (chans s))%nat -> cm s (sink_step s o) c).
+  { intros c K L. now apply step_cm with ks. }
+  destruct o as [t k i z|t|t|l|t|t|on|n| | |n|t n|t|t| |t k i z]; cbn [sink_step] in *.
+  - now apply wake_ok_start with ks.
+  - now apply wake_ok_poll with ks.
+  - now apply wake_ok_drop with ks.
+  - apply wake_ok_ack_list; auto. now exists ks.
+  - eapply wake_ok_other; eauto; [apply release_eff|apply release_tw].
+  - eapply wake_ok_other; eauto; [apply drop_receipt_eff|apply drop_receipt_tw].
+  - apply wake_ok_wrb. now exists ks.
+  - apply wake_ok_set_cap. now exists ks.
+  - apply wake_ok_closed; auto. destruct (close_facts s) as (_ & _ & _ & _ & Z). exact Z.
+  - apply wake_ok_closed; auto. unfold do_force_close. rewrite clear_queues_eq. discriminate.
+  - eapply wake_ok_other; eauto; [apply eff_same; try reflexivity; now left|now left].
+  - eapply wake_ok_other; eauto; [apply chunk_eff|apply chunk_tw].
+  - eapply wake_ok_other; eauto; [apply drop_stream_eff|apply drop_stream_tw].
+  - eapply wake_ok_other; eauto; [apply drop_chunk_eff|apply drop_chunk_tw].
+  - exact WO.
+  - now apply wake_ok_create with ks.
+Qed.
+
+Lemma wake_ok_op s o :
+  sink_inv s -> settled s -> wake_ok s -> known_step (set_wire s []) o = false -> wake_ok (sink_op s o).
+Proof.
+  intros SI ST WO KN. unfold sink_op. set (s0 := set_wire s []).
+  assert (SI0 : sink_inv s0) by (destruct SI as [ks I]; exists ks; apply inv_core with s; auto).
+  pose proof (wake_ok_step s0 o SI0 ST WO KN) as W1. set (s1 := sink_step s0 o) in *.
+  unfold wake_ok in *. destruct (settle_counts s1) as [-> ->]. destruct (settle_same s1) as (-> & -> & _ & ->). exact W1.
+Qed.
+
+Theorem wake_inv ops : forall s, sink_inv s -> settled s -> wake_ok s -> Known s ops = false -> wake_ok (run_from s ops).
+Proof.
+  induction ops as [|o r IH]; intros s SI ST WO KN; cbn [run_from fold_left Known] in *; auto.
+  apply orb_false_iff in KN as [K1 K2]. destruct (inv_sink_op s o SI ST) as [SI1 ST1].
+  apply IH; auto. now apply wake_ok_op.
+Qed.
+
+Theorem wake_inv_init v cl c ops : Known (sink_init v cl c) ops = false -> wake_ok (run_from (sink_init v cl c) ops).
+Proof.
+  apply wake_inv; [exists []; apply inv_init|now left|]. intros P. cbv in P. discriminate.
+Qed.
+
+(* ---------------------------------------------------------------- quiescence *)
+Lemma cnt_zero P l : cnt P l = 0 -> forall t x, In (t, x) l -> P x = false.
+Proof.
+  intros Z t x H. destruct (P x) eqn:E; auto. pose proof (cnt_in P l t x H E). lia.
+Qed.
+
+(* nobody woken and not yet resumed, back-pressure off, everything acknowledged *)
+Definition quiescent (s : sink) : Prop := nW s = 0 /\ wrb s = false /\ inflight s = [].
+Definition finished (st : tstate) : Prop :=
+  match st with TDone _ | TReceipt _ | TDropped => True | _ => False end.
+
+Theorem quiescent_all_done s t x :
+  sink_inv s -> wake_ok s -> 1 <= cap s -> quiescent s ->
+  find_task t (tasks s) = Some x -> tst x <> TNew ->
+  nU s = 0 /\ exists x', find_task t (tasks (poll_task s t)) = Some x' /\ finished (tst x').
+Proof.
+  intros [ks I] WO C (QW & QB & QI) F NN.
+  assert (U0 : nU s = 0).
+  { destruct (N.eq_dec (nU s) 0) as [|N]; auto. exfalso. destruct WO as [Z|Z]; [lia|rewrite QI, lenN_nil, QW in Z; lia|congruence]. }
+  split; auto.
+  assert (H : In (t, x) (tasks s)) by (apply find_task_In; auto; apply I).
+  destruct (i_task _ _ I t x H) as [SO _].
+  pose proof (cnt_zero _ _ U0 t x H) as NU. pose proof (cnt_zero _ _ QW t x H) as NW.
+  unfold poll_task. rewrite F. unfold unwoken, woken, st_ok in *.
+  assert (PD : forall c, c_st (cg s c) = CSenderDropped -> poll s c = PCanceled).
+  { intros c E. unfold poll, ch_poll. fold (cg s c). now rewrite E. }
+  destruct (tst x) as [c|c id|id|c|c|e| | |e] eqn:E; cbn [twait] in *.
+  - destruct (c_st (cg s c)) eqn:Q; try discriminate. rewrite (PD c Q). eexists. sk. rewrite find_put_same. split; [reflexivity|exact Logic.I].
+  - destruct SO as (_ & _ & _ & S4 & _). unfold poll, ch_poll. fold (cg s c).
+    destruct (c_st (cg s c)) eqn:Q; [specialize (S4 eq_refl); rewrite QI in S4; contradiction| |];
+      eexists; sk; rewrite find_put_same; (split; [reflexivity|]); cbn [with_tst tst]; [destruct (tk x =? 2)|]; exact Logic.I.
+  - eexists. sk. rewrite find_put_same. split; [reflexivity|exact Logic.I].
+  - destruct SO as (_ & _ & S3 & _). unfold poll, ch_poll. fold (cg s c).
+    destruct (c_st (cg s c)) eqn:Q; [destruct (S3 eq_refl) as (i & Hi); rewrite QI in Hi; contradiction| |];
+      eexists; sk; rewrite find_put_same; (split; [reflexivity|exact Logic.I]).
+  - destruct (c_st (cg s c)) eqn:Q; try discriminate. rewrite (PD c Q). eexists. sk. rewrite find_put_same. split; [reflexivity|exact Logic.I].
+  - eexists. sk. rewrite find_put_same. split; [reflexivity|exact Logic.I].
+  - eexists. sk. rewrite find_put_same. split; [reflexivity|exact Logic.I].
+  - contradiction.
+  - eexists. sk. rewrite find_put_same. split; [reflexivity|exact Logic.I].
+Qed.
+
+(* ---------------------------------------------------------------- cancelled waiters do not absorb a wake-up *)
+Theorem cancelled_head_skipped chs n c r :
+  c_rx (ch_get chs c) = false -> n <> 0 -> wake_go chs n (c :: r) = wake_go chs n r.
+Proof.
+  intros R N. cbn [wake_go]. destruct (N.eqb_spec n 0); [contradiction|]. unfold ch_send. rewrite R. reflexivity.
+Qed.
+
+Theorem wake_reaches_live ks s n :
+  inv ks s -> nU (wake s n) <= nU s /\ exists m, nW s + m <= nW (wake s n) /\ (0 < nU (wake s n) -> m = n).
+Proof. apply wake_counts. Qed.
+
+(* ---------------------------------------------------------------- a streamed send paused by back-pressure resumes *)
+Theorem stream_resumes s t x sm c m :
+  sink_inv s -> find_task t (tasks s) = Some x -> tstream x = Some sm -> s_alive sm = true ->
+  pend sm = SWaitWrb c m -> c_st (cg s c) = COpen ->
+  let s' := do_wrb s false in
+  cg s' c = mkChan CFilled 0 true /\ wrb s' = false /\ swait s' = None /\ wake_ok s' /\
+  forall n, chunk_task s' t n =
+    (let '(s1, sm1) := chunk_payload s' sm (s_rx sm) m in set_tasks s1 (put_task t (with_stream x sm1) (tasks s1))).
+Proof.
+  intros SI F TS AL PE O. pose proof (wake_ok_wrb s false SI) as WO. destruct SI as [ks I].
+  assert (H : In (t, x) (tasks s)) by (apply find_task_In; auto; apply I).
+  destruct (i_task _ _ I t x H) as [_ MO]. unfold sm_ok in MO. rewrite TS, PE in MO.
+  destruct MO as (_ & KB' & RX & SW). specialize (SW O).
+  cbv zeta.
+  set (s2 := set_swait (set_chans (set_wrb s false) (fst (ch_send (chans s) c 0))) None).
+  assert (E : do_wrb s false = if lenN (inflight s) <? cap s then wake s2 (cap s - lenN (inflight s)) else s2).
+  { unfold do_wrb, s2. sk. rewrite SW, send_eq. reflexivity. }
+  rewrite E in *. clear E.
+  assert (C2 : cg s2 c = mkChan CFilled 0 true).
+  { unfold cg, s2. sk. rewrite ch_send_get, Nat.eqb_refl. fold (cg s c). now rewrite RX. }
+  assert (NW : ~ In c (waiters s)).
+  { intros W. apply (i_ws _ _ I) in W as [W _]. congruence. }
+  assert (G : forall s3, (s3 = s2 \/ s3 = wake s2 (cap s2 - lenN (inflight s2))) ->
+     cg s3 c = mkChan CFilled 0 true /\ wrb s3 = false /\ swait s3 = None /\ tasks s3 = tasks s).
+  { intros s3 [-> | ->]; [auto|]. rewrite wake_eq. unfold cg. sk. repeat split; auto.
+    destruct (wake_go_spec (waiters s) (fst (ch_send (chans s) c 0)) (cap s - lenN (inflight s)) (i_wsnd _ _ I)) as (p & w & W1 & W2 & W3 & _).
+    rewrite W3. destruct (existsb (Nat.eqb c) w) eqn:Q; [reflexivity|]. exact C2. }
+  assert (FIN : forall s3, (s3 = s2 \/ s3 = wake s2 (cap s2 - lenN (inflight s2))) -> wake_ok s3 ->
+     cg s3 c = mkChan CFilled 0 true /\ wrb s3 = false /\ swait s3 = None /\ wake_ok s3 /\
+     forall n, chunk_task s3 t n =
+       (let '(s1, sm1) := chunk_payload s3 sm (s_rx sm) m in set_tasks s1 (put_task t (with_stream x sm1) (tasks s1)))).
+  { intros s3 E3 W3. destruct (G s3 E3) as (G1 & G2 & G3 & G4). split; [exact G1|]. split; [exact G2|]. split; [exact G3|].
+    split; [exact W3|]. intros n. unfold chunk_task. rewrite G4, F, TS, AL, PE. cbn [negb]. unfold poll, ch_poll.
+    unfold cg in G1. rewrite G1. reflexivity. }
+  destruct (lenN (inflight s) <? cap s); apply FIN; auto.
+Qed.
+
+(* ---------------------------------------------------------------- the recorded findings are real: witnesses *)
+Fixpoint Known_by (f : sink -> op -> bool) (s : sink) (ops : list op) : bool :=
+  match ops with [] => false | o :: r => ((0 <? nU (set_wire s [])) && f (set_wire s []) o) || Known_by f (sink_op s o) r end.
+
+Definition case_q : list op := map parse_op [[1;1;1;0];[1;2;1;0];[1;3;1;0];[4;1;1];[3;2];[2;1];[2;3]].
+Definition case_q2 : list op := map parse_op [[1;1;1;0];[1;2;5;0];[1;3;1;0];[4;1;1];[2;2];[2;3];[2;1]].
+Definition case_qerr : list op := map parse_op [[1;1;1;0];[1;2;7;0;5];[1;3;1;0];[14;2];[4;1;1];[2;1];[2;2];[2;3]].
+
+(* final state: a live parked sender although nothing is outstanding, back-pressure is off and the window is open *)
+Definition stranded (s : sink) : Prop :=
+  nU s = 1 /\ nW s = 0 /\ inflight s = [] /\ wrb s = false /\ cap s = 1 /\ io s = 0 /\ ~ wake_ok s.
+
+Lemma known_q_refuted :
+  Known_by known_q (sink_init 3 false 1) case_q = true /\ Known (sink_init 3 false 1) case_q = true /\
+  stranded (run_from (sink_init 3 false 1) case_q).
+Proof.
+  split; [vm_compute; reflexivity|]. split; [vm_compute; reflexivity|]. unfold stranded.
+  set (s := run_from (sink_init 3 false 1) case_q).
+  assert (E1 : nU s = 1) by (vm_compute; reflexivity).
+  assert (E2 : nW s = 0) by (vm_compute; reflexivity).
+  assert (E3 : inflight s = []) by (vm_compute; reflexivity).
+  assert (E4 : wrb s = false) by (vm_compute; reflexivity).
+  assert (E5 : cap s = 1) by (vm_compute; reflexivity).
+  assert (E6 : io s = 0) by (vm_compute; reflexivity).
+  clearbody s. repeat split; auto.
+  unfold wake_ok. rewrite E1, E2, E3, E4, E5. intros W. destruct W as [W|W]; [lia|change (1 <= 0 + 0) in W; lia|discriminate].
+Qed.
+
+Lemma known_q2_refuted :
+  Known_by known_q2 (sink_init 3 false 1) case_q2 = true /\ Known (sink_init 3 false 1) case_q2 = true /\
+  stranded (run_from (sink_init 3 false 1) case_q2).
+Proof.
+  split; [vm_compute; reflexivity|]. split; [vm_compute; reflexivity|]. unfold stranded.
+  set (s := run_from (sink_init 3 false 1) case_q2).
+  assert (E1 : nU s = 1) by (vm_compute; reflexivity).
+  assert (E2 : nW s = 0) by (vm_compute; reflexivity).
+  assert (E3 : inflight s = []) by (vm_compute; reflexivity).
+  assert (E4 : wrb s = false) by (vm_compute; reflexivity).
+  assert (E5 : cap s = 1) by (vm_compute; reflexivity).
+  assert (E6 : io s = 0) by (vm_compute; reflexivity).
+  clearbody s. repeat split; auto.
+  unfold wake_ok. rewrite E1, E2, E3, E4, E5. intros W. destruct W as [W|W]; [lia|change (1 <= 0 + 0) in W; lia|discriminate].
+Qed.
+
+Lemma known_qerr_refuted :
+  Known_by known_qerr (sink_init 3 false 1) case_qerr = true /\ Known (sink_init 3 false 1) case_qerr = true /\
+  stranded (run_from (sink_init 3 false 1) case_qerr).
+Proof.
+  split; [vm_compute; reflexivity|]. split; [vm_compute; reflexivity|]. unfold stranded.
+  set (s := run_from (sink_init 3 false 1) case_qerr).
+  assert (E1 : nU s = 1) by (vm_compute; reflexivity).
+  assert (E2 : nW s = 0) by (vm_compute; reflexivity).
+  assert (E3 : inflight s = []) by (vm_compute; reflexivity).
+  assert (E4 : wrb s = false) by (vm_compute; reflexivity).
+  assert (E5 : cap s = 1) by (vm_compute; reflexivity).
+  assert (E6 : io s = 0) by (vm_compute; reflexivity).
+  clearbody s. repeat split; auto.
+  unfold wake_ok. rewrite E1, E2, E3, E4, E5. intros W. destruct W as [W|W]; [lia|change (1 <= 0 + 0) in W; lia|discriminate].
+Qed.
